@@ -48,6 +48,7 @@ fn dispatch_run(prop: &'static str, tier: &str) -> i32 {
         "C08" => props::spec::run(tier),
         "C09" => props::nopanic::run(tier),
         "C10" => props::nonce::run(tier),
+        "C18" => props::claimkeys::run(tier),
         "C11" | "C12" => props::timeclaims::run(prop, tier),
         "C04" => props::binding::run_c04(tier),
         "C05" => props::binding::run_c05(tier),
@@ -64,6 +65,7 @@ fn dispatch_replay(prop: &'static str, case: &serde_json::Value) -> i32 {
         "C08" => props::spec::replay(case),
         "C09" => props::nopanic::replay(case),
         "C10" => props::nonce::replay(case),
+        "C18" => props::claimkeys::replay(case),
         "C11" | "C12" => props::timeclaims::replay(prop, case),
         "C04" | "C05" | "C06" | "C07" => props::binding::replay(prop, case),
         _ => report::machinery_error("unknown property"),
